@@ -78,5 +78,6 @@ SemConv(X, W, B, attrs) ==
    ELSE IF ~ConvWellFormed(X, W, B, attrs) THEN NoCrash
    ELSE LET g == ConvGeometry(X, W, attrs) IN
         IF \E i \in 1..g.n : g.oSp[i] < 1 THEN NoCrash
-        ELSE MustValue(<<ConvValue(X, W, B, attrs)>>)
+        \* the property speaks of float32 and float64; ONNX defines Conv for floating-point types only
+        ELSE Weaken(X.dt \notin {"f32", "f64"}, MustValue(<<ConvValue(X, W, B, attrs)>>))
 =============================================================================
